@@ -1103,6 +1103,15 @@ func (ce *commandEncoder) Literal(size int64) io.WriteCloser {
 	ce.client.mutex.Lock()
 	hasCapLiteralMinus := ce.client.caps.Has(imap.CapLiteralMinus)
 	ce.client.mutex.Unlock()
+	if ce.Encoder.Err() != nil {
+		// Nothing will be written (e.g. an earlier literal was refused):
+		// don't register a continuation request which would never be
+		// waited for
+		return literalWriter{
+			WriteCloser: ce.Encoder.Literal(size, nil),
+			client:      ce.client,
+		}
+	}
 	if size > 4096 || !hasCapLiteralMinus {
 		contReq = ce.client.registerContReq(ce.cmd)
 	}
